@@ -196,6 +196,8 @@ struct Exec<'a> {
     stats: RunStats,
     viol: Vec<Violation>,
     step: usize,
+    /// which of count / sum / mean the next aggregate check reads first (None: rotates with the step)
+    first_aggregate: Option<u8>,
 }
 
 impl<'a> Exec<'a> {
@@ -233,17 +235,25 @@ impl<'a> Exec<'a> {
         if a.n_ins > 0 && (mn.to_bits() != a.min.to_bits() || mx.to_bits() != a.max.to_bits()) {
             self.viol.push(v("C16", format!("tdigest/{}/min-max", s), self.step, format!("{}: min/max = {}/{}, inserted extremes {}/{}", ctx, mn, mx, a.min, a.max)));
         }
-        let c = d.count();
+        // count(), sum() and mean() each have to flush pending inserts themselves: whichever is read
+        // first must already be right (the order rotates, `first_aggregate` pins it)
+        let order = self.first_aggregate.take().unwrap_or((self.step % 3) as u8);
+        let (mut c, mut sm, mut me) = (f64::NAN, f64::NAN, f64::NAN);
+        for k in 0..3u8 {
+            match (order + k) % 3 {
+                0 => c = d.count(),
+                1 => sm = d.sum(),
+                _ => me = d.mean(),
+            }
+        }
         if (c - a.sw).abs() > 1e-9 * a.sw.abs() {
             self.viol.push(v("C16", format!("tdigest/{}/count", s), self.step, format!("{}: count() = {}, sum of inserted weights = {}", ctx, c, a.sw)));
         }
-        let sm = d.sum();
         // (sums whose absolute total overflows f64 are outside "floating-point accumulation accuracy")
         if a.saxw.is_finite() && (sm - a.sxw).abs() > 1e-9 * a.saxw {
             self.viol.push(v("C16", format!("tdigest/{}/sum", s), self.step, format!("{}: sum() = {}, weighted sum of inserted values = {}", ctx, sm, a.sxw)));
         }
         if a.n_ins > 0 && a.saxw.is_finite() {
-            let me = d.mean();
             let want = a.sxw / a.sw;
             if !((me - want).abs() <= 1e-9 * a.saxw / a.sw) {
                 self.viol.push(v("C16", format!("tdigest/{}/mean", s), self.step, format!("{}: mean() = {}, weighted mean of inserted values = {}", ctx, me, want)));
@@ -580,14 +590,9 @@ impl<'a> Exec<'a> {
                             let x = if a.n_ins == 0 { pos } else { lerp(a.min, a.max, pos * 1.2 - 0.1) };
                             first = Some((1, x, d.cdf(x)));
                         }
-                        2 => {
-                            let _ = d.count();
-                        }
-                        3 => {
-                            let _ = d.sum();
-                        }
-                        4 => {
-                            let _ = d.mean();
+                        2 | 3 | 4 => {
+                            // the aggregate itself is the first read: checked against the model below
+                            self.first_aggregate = Some(kind - 2);
                         }
                         5 => {
                             let nc = d.n_centroids();
@@ -930,7 +935,7 @@ impl Scenario for S4 {
     }
 
     fn execute(case: &DigestCase, prop: &'static str) -> Outcome {
-        let mut ex = Exec { case, prop, sname: scale_name(case.scale), stats: RunStats::default(), viol: vec![], step: 0 };
+        let mut ex = Exec { case, prop, sname: scale_name(case.scale), stats: RunStats::default(), viol: vec![], step: 0, first_aggregate: None };
         let r = guarded(|| ex.body());
         if let Caught::LibPanic(loc, msg) = r {
             let class = format!("tdigest/{}/panic/{}", ex.sname, panic_site(&loc));
